@@ -38,6 +38,7 @@ type Config struct {
 	Curve          string `json:"curve"`
 	PlanSeed       uint64 `json:"plan_seed"`
 	RejectPerMille int    `json:"reject_per_mille"`
+	WrapInvalid    bool   `json:"wrap_invalid,omitempty"` // retryable faults are returned as an error wrapping ErrInvalidKey
 	Ops            []Op   `json:"ops"`
 }
 
@@ -93,6 +94,9 @@ func (w *world) decide(cand []byte) error {
 	if w.reject(cand) {
 		w.rejects++
 		w.totalRej++
+		if w.cfg.WrapInvalid {
+			return fmt.Errorf("candidate %x... rejected: %w", cand[:4], slip10.ErrInvalidKey)
+		}
 		return slip10.ErrInvalidKey
 	}
 	return nil
@@ -220,6 +224,7 @@ func Run(cfg *Config) proto.End {
 	r.res.Nontriv = r.w.totalRej > 0 || r.w.totalPerm > 0
 	r.res.Tags["curve"] = cfg.Curve
 	r.res.Tags["reject_per_mille"] = fmt.Sprint(cfg.RejectPerMille)
+	r.res.Tags["invalid_key_wrapped"] = fmt.Sprint(cfg.WrapInvalid)
 	b, _ := json.Marshal(map[string]any{"curve": cfg.Curve, "reject_per_mille": cfg.RejectPerMille, "ops": r.log})
 	r.res.Sample = b
 	return r.res
@@ -424,6 +429,7 @@ func Gen(seed uint64, tier string) *Config {
 	if r.IntN(8) == 0 {
 		c.RejectPerMille = 0 // fault-free configuration, judged by the same oracle
 	}
+	c.WrapInvalid = r.IntN(4) == 0
 	maxOps := 8
 	if c.Curve == "ed25519" {
 		maxOps = 14
